@@ -75,6 +75,12 @@ impl Future for Timer {
     }
 }
 
+pub mod future {
+    pub async fn yield_now() {
+        simrt::yield_now().await
+    }
+}
+
 pub fn block_on<T>(_future: impl Future<Output = T>) -> T {
     unimplemented!("verif stub: block_on is not used under simulation")
 }
